@@ -93,6 +93,7 @@ class Explorer:
         self.inputs = {}           # name -> z3 var (insertion ordered)
         self.notes = []
         self.loop_budget = None
+        self.concretize_digits = False
 
     def fresh_name(self, kind):
         n = self.counters.get(kind, 0)
